@@ -161,9 +161,43 @@ class C02(Prop):
         src = "rule r { strings: $a = { %s } condition: $a or true }" % _hir.hex_text(toks)
         return {"toks": toks, "src": src, "inputs": inputs}
 
+    def gen_scanner_history(self, rng):
+        """several long validations on ONE scanner (the harness compiles once and scans the inputs in order):
+        a state-hungry pattern (three long jumps), members a few KB long (below the 4096 window) full of the
+        bytes that end the jumps, framed by a short member scanned first and last.  Too long for vm_compute:
+        the expected lists are known by construction (one head literal, one tail literal per input: the only
+        possible match is the whole input) and `term` decides without Coq; what is checked is that the answer
+        for an input does not depend on what the scanner validated before."""
+        head = [rng.choice([0x11, 0x12, 0x13]), 0x22, 0x33, 0x44]
+        tail = [0x77, 0x88, 0x99, rng.choice([0xAA, 0xAB])]
+        j = rng.choice([1200, 1150, 1100])
+        a, b = 0x55, 0x66
+        toks = ([["b", x] for x in head] + [["j", 0, j], ["b", a], ["j", 0, j], ["b", b], ["j", 0, j]]
+                + [["b", x] for x in tail])
+        short = bytes([0, 0] + head + [a, b] + tail + [0])
+        inputs, expect = [short.hex()], [[(2, 10)]]
+        for i in range(rng.range(4, 5)):
+            r = rng.fork("h%d" % i)
+            n = r.range(3 * j - 350, 3 * j - 200)
+            noise = bytes(r.choice([a, b, 0, 0]) for _ in range(n))
+            m = bytes(head) + noise + bytes([a, b]) + bytes(tail)
+            # the member claim, checked and not assumed: latest `a` within reach of the head, latest `b` within reach
+            # of it, tail within reach of that `b` (jumps are [0-j]); otherwise the whole input is not a member
+            p1 = max((p for p in range(4, min(4 + j, len(m) - 5) + 1) if m[p] == a), default=None)
+            p2 = None if p1 is None else max((p for p in range(p1 + 1, min(p1 + 1 + j, len(m) - 5) + 1) if m[p] == b), default=None)
+            member = p2 is not None and len(m) - 4 <= p2 + 1 + j
+            inputs.append(m.hex())
+            expect.append([(0, len(m))] if member else [])
+        inputs.append(short.hex())
+        expect.append([(2, 10)])
+        src = "rule r { strings: $a = { %s } condition: $a or true }" % _hir.hex_text(toks)
+        return {"toks": toks, "src": src, "inputs": inputs, "expect": [[list(x) for x in e] for e in expect]}
+
     def generate(self, ctx, rng, n):
         nlong = 16 if n < 2000 else 60      # long inputs are costly under vm_compute: a bounded number per run
+        nhist = 2 if n < 2000 else 6
         return ([self.gen_long_jump(rng.fork("lj%d" % i)) for i in range(nlong)]
+                + [self.gen_scanner_history(rng.fork("sh%d" % i)) for i in range(nhist)]
                 + [self.gen_case(rng.fork("c%d" % i)) for i in range(n)])
 
     def budget(self, tier):
@@ -207,6 +241,14 @@ class C02(Prop):
             # the description does not fit in one Gallina term (coqc overflows its stack): not evaluated
             ctx.count("not_evaluated_too_many_literals")
             return (True, True, 0)
+        if "expect" in case:
+            # scanner-history family: expected lists known by construction, decided without Coq
+            ctx.count("scanner_history_cases")
+            got = [_hir.matches_of(s) for s in out["scans"]]
+            want = [[tuple(x) for x in e] for e in case["expect"]]
+            ok = (len(got) == len(want) and all(g is not None and not s.get("error") and [tuple(x) for x in g] == w
+                                                for g, w, s in zip(got, want, out["scans"])))
+            return (ok, ok, 0)
         outs = []
         for s in out["scans"]:
             ms = _hir.matches_of(s)
